@@ -35,7 +35,9 @@ def run(v, tier, seed, name="python_bridge", n_quick=120, n_thorough=2500):
     bad_model, bad_twin, nontriv, states, capped = [], [], set(), 0, 0
     for i in range(n):
         kind = "py" if i % 3 != 2 else "pyd"
-        a, t = impl.get(f"{kind}{i}", []), impl.get(f"tw{i}", [])
+        # (panic messages of a Python and a Rust process differ in wording: the `PANIC` lines are for the monitors only)
+        a = [l for l in impl.get(f"{kind}{i}", []) if not l.startswith("PANIC ")]
+        t = [l for l in impl.get(f"tw{i}", []) if not l.startswith("PANIC ")]
         lines = scen[2 * i][1]
         if any("capped" in l for l in a + t):
             capped += 1; continue
@@ -216,7 +218,8 @@ def sim_twin(v, tier, seed, name="python_sim_twin", n_quick=120, n_thorough=2000
             impl.update(o)
     nviol = ncmp = nzero = ntimers = 0
     for i in range(n):
-        a, t = impl.get(f"sp{i}", []), impl.get(f"st{i}", [])
+        a = [l for l in impl.get(f"sp{i}", []) if not l.startswith("PANIC ")]
+        t = [l for l in impl.get(f"st{i}", []) if not l.startswith("PANIC ")]
         lines = scen[2 * i][1]
         if not a or not t or any("capped" in l or l.endswith("-timeout") for l in a + t):
             continue
